@@ -287,8 +287,10 @@ def r03f(ck, prog, cg):
             lo, hi = rng[1], rng[2]
             where = site(prog, lp, "%s loop" % name)
             full = lo.is_const() and lo.c == 0 and hi.c == 0 and len(hi.t) == 1 and list(hi.t)[0].endswith("->numseq") and list(hi.t.values()) == [1]
-            ck.inst("R03f", where, "%s visits sequences [%s, %s) of the unsorted msa" % (name, lo, hi), prog.config)
-            if not full and name not in ("merge_msa",):
+            # loops that start at numseq walk the spare, pre-allocated slots behind the live records: not a prefix
+            spare = (not lo.is_const()) and lo.c == 0 and len(lo.t) == 1 and list(lo.t)[0].endswith("->numseq")
+            ck.inst("R03f", where, "%s visits sequences [%s, %s) of the unsorted msa%s" % (name, lo, hi, " (spare slots)" if spare else ""), prog.config)
+            if not full and not spare and name not in ("merge_msa",):
                 ck.violation("R03f", "R03f/%s/prefix" % name, where,
                              "%s looks only at sequences [%s, %s) of the msa in the caller's order: what it computes depends on "
                              "which records come first" % (name, lo, hi), prog.config)
